@@ -42,7 +42,7 @@ def bounds(tier):
             "max_pos": 3,
             "max_neg": 3,
             "easy": [0, 1, 2],
-            "grids": ["irregular", "int", "dyadic", "uint"],
+            "grids": ["irregular", "int", "dyadic", "uint", "ulp_pow2"],
             "threshold_alphabet": "4m+3 relative points incl. ulp neighbours and +-inf",
             "input_forms": "all permutations (<=3 per class), list/int64/float64/float32, "
             "from_labels, is_sorted=True",
@@ -51,7 +51,7 @@ def bounds(tier):
         "max_pos": 5,
         "max_neg": 5,
         "easy": [0, 1, 2, 3],
-        "grids": ["irregular", "int", "dyadic", "negated", "ulp", "uint"],
+        "grids": ["irregular", "int", "dyadic", "negated", "ulp", "ulp_pow2", "symmetric", "uint"],
         "threshold_alphabet": "4m+3 relative points incl. ulp neighbours and +-inf",
         "input_forms": "all permutations (<=3 per class; reversed+rotation beyond), "
         "list/int64/float64/float32, from_labels, is_sorted=True",
@@ -64,7 +64,7 @@ def work(tier, seed):
     for bl in ot.order_types(b["max_pos"], b["max_neg"]):
         n = sum(a + c for a, c in bl)
         for kind in b["grids"]:
-            if kind in ("ulp", "negated", "dyadic") and n > 7:
+            if kind in ("ulp", "ulp_pow2", "symmetric", "negated", "dyadic") and n > 7:
                 continue
             items.append({"blocks": [list(x) for x in bl], "grid": kind})
         if n <= (4 if tier == "quick" else 6):
@@ -74,6 +74,8 @@ def work(tier, seed):
         items.append({"ladder": n})
     for bl in ot.order_types(2, 2) if tier == "quick" else ot.order_types(3, 3):
         items.append({"bigint": [list(x) for x in bl]})
+    for dt in ("float32", "float16", "float64", "uint8"):
+        items.append({"scalar_kinds": dt})
     return items
 
 
@@ -143,6 +145,8 @@ def run(item, ctx, tier, seed):
         return _run_ladder(item, ctx, seed)
     if "bigint" in item:
         return _run_bigint(item, ctx)
+    if "scalar_kinds" in item:
+        return _run_scalar_kinds(item, ctx)
     blocks = [tuple(x) for x in item["blocks"]]
     if item["grid"] in ot.MIXED_KINDS:
         return _run_mixed(item, ctx, blocks)
@@ -441,6 +445,18 @@ def _run_ladder(item, ctx, seed):
                         if mL[k] != cache[t]:
                             ctx.fail("cm-equals-counting", dict(case, index=k, threshold=t, shape=list(shape)), observed=mL[k], expected=cache[t])
                             break
+                # the caller keeps the first result while asking again with other thresholds of the same shape
+                ok, held = guarded(ctx, "cm-long-array", case, lambda: sL.cm(la).matrix)
+                if ok:
+                    snapshot = np.array(held, copy=True)
+                    guarded(ctx, "cm-long-array", case, lambda: sL.cm(la[::-1].copy()).matrix)
+                    guarded(ctx, "cm-long-array", case, lambda: sL.tpr(la + 0.125))
+                    guarded(ctx, "cm-long-array", case, lambda: sL.cm(la * 0.5).matrix)
+                    ctx.tick(3)
+                    if not np.array_equal(held, snapshot):
+                        k = int(np.argmax(np.any(np.asarray(held) != snapshot, axis=(1, 2))))
+                        ctx.fail("returned-matrix-not-overwritten-by-later-calls", dict(case, index=k, threshold=longT[k]),
+                                 observed=np.asarray(held)[k], expected=snapshot[k])
         if n <= 1100:
             labels = [1] * len(pos) + [0] * len(neg)
             ss = pos + neg
@@ -455,6 +471,50 @@ def _run_ladder(item, ctx, seed):
                                      expected=refs.ref_cm_sorted(spos, sneg, t, cfg[0], cfg[1]))
                             break
     ctx.sample({"ladder_n": n, "thresholds": len(T)})
+    return None
+
+
+def _run_scalar_kinds(item, ctx):
+    """One threshold handed to pointwise_cm / Scores.cm as Python float or int, NumPy scalar, 0-d array, 1-element
+    array or list, on scores stored in a narrow dtype: the decision rule applies to the number itself."""
+    from score_analysis import Scores
+    from score_analysis.scores import pointwise_cm
+
+    dt = np.dtype(item["scalar_kinds"])
+    raw = [0.7, 0.1, 0.3, 2.5, 0.7, 0.2, 0.6, 1.1] if dt.kind == "f" else [7, 1, 3, 25, 7, 2, 6, 11]
+    labels = [1, 1, 1, 1, 0, 0, 0, 0]
+    scores = np.array(raw, dtype=dt)
+    exact = [float(v) for v in scores.tolist()]
+    pos = [v for v, l in zip(exact, labels) if l == 1]
+    neg = [v for v, l in zip(exact, labels) if l == 0]
+    thr = []
+    for v in sorted(set(exact)):
+        thr += [v, math.nextafter(v, math.inf), math.nextafter(v, -math.inf), round(v, 1), round(v, 2) + 1e-9, float(int(v)), float(int(v) + 1)]
+    thr = list(dict.fromkeys(thr + [0.7, 0.1, 0.3, 0.2, 0.6, 1.1]))
+    for cfg in ot.CFGS:
+        sc, ec = cfg
+        for t in thr:
+            want = refs.ref_cm(pos, neg, t, sc, ec)
+            kinds = [("python-float", t), ("np.float64", np.float64(t)), ("0-d-array", np.array(t)), ("1-element-array", np.array([t])), ("list", [t])]
+            if float(t).is_integer():
+                kinds.append(("python-int", int(t)))
+            ctx.state()
+            for kname, arg in kinds:
+                case = {"score_dtype": dt.name, "scores": exact, "labels": labels, "cfg": cfg, "threshold": t, "passed_as": kname}
+                ok, pw = guarded(ctx, "pointwise_cm", case, lambda: np.asarray(pointwise_cm(labels, scores, arg, score_class=sc, equal_class=ec)))
+                ctx.tick()
+                if float(np.asarray(t, dtype=dt)) != t:
+                    ctx.nontrivial()
+                if ok:
+                    tot = pw.reshape(len(labels), -1, 2, 2).sum(axis=0)[0].tolist()
+                    if tot != want:
+                        ctx.fail("pointwise-sum-equals-counting", case, observed=tot, expected=want)
+                ok, m = guarded(ctx, "from_labels-cm", case, lambda: np.asarray(
+                    Scores.from_labels(labels, scores, score_class=sc, equal_class=ec).cm(arg).matrix).reshape(-1, 2, 2)[0].tolist())
+                ctx.tick()
+                if ok and m != want:
+                    ctx.fail("cm-equals-counting", case, observed=m, expected=want)
+    ctx.sample({"scalar_kinds": dt.name, "thresholds": len(thr)})
     return None
 
 
